@@ -10,6 +10,7 @@ pub mod h_format;
 pub mod h_format_setters;
 pub mod h_swar;
 pub mod h_float_tok;
+pub mod h_special;
 #[cfg(not(feature = "compact"))]
 pub mod h_lemire;
 #[cfg(feature = "format")]
@@ -29,6 +30,9 @@ pub fn all_harnesses() -> Vec<Harness> {
     v.extend_from_slice(h_format_setters::HARNESSES);
     v.extend_from_slice(h_swar::HARNESSES);
     v.extend_from_slice(h_float_tok::HARNESSES);
+    v.extend_from_slice(h_special::HARNESSES);
+    #[cfg(feature = "format")]
+    v.extend_from_slice(h_special::fmt::HARNESSES);
     #[cfg(not(feature = "compact"))]
     v.extend_from_slice(h_lemire::HARNESSES);
     #[cfg(feature = "format")]
